@@ -567,3 +567,21 @@ fn is_extender(value: char) -> bool {
 }
 
 // -----------------------------------------------------------------------------------------------
+
+// -----------------------------------------------------------------------------------------------
+
+/// Verification hooks (feature `verif`, off by default): public wrappers around private helpers.
+#[cfg(feature = "verif")]
+pub mod verif_hooks {
+    pub fn is_char_except(value: char, excepts: &str) -> bool {
+        super::is_char_except(value, excepts)
+    }
+
+    pub fn is_name_char_except(value: char, excepts: &str) -> bool {
+        super::is_name_char_except(value, excepts)
+    }
+
+    pub fn is_pubid_char_except(value: char, excepts: &str) -> bool {
+        super::is_pubid_char_except(value, excepts)
+    }
+}
